@@ -1,5 +1,5 @@
 (* C05 -- reported tensions are the non-negative least-squares optimum with mean one.  Statements only. *)
-From Coq Require Import ZArith QArith List Bool Reals.
+From Coq Require Import ZArith QArith List Bool Reals Lra.
 From Forsys Require Import Model.Num Model.PyList Model.ForceSys Model.Cert Proofs.ForceSysProofs Proofs.CertProofs Proofs.MeanOneProofs.
 Import ListNotations.
 
@@ -56,6 +56,11 @@ Proof. exact consistent_system_mean_one. Qed.
 Example C05_cert_example :
   kkt_check ZOps 2 [[1;0];[0;1]]%Z [1;2]%Z [1;2]%Z 0%Z 0%Z = true /\ kkt_check ZOps 2 [[1;0];[0;1]]%Z [1;2]%Z [0;2]%Z 0%Z 0%Z = false.
 Proof. vm_compute. split; reflexivity. Qed.
+
+(* non-vacuity of the consistent case: two interfaces pulling against each other with equal tension *)
+Example C05_consistent_example :
+  mv ROps (raug [[1; -1]%R] 2) [1; 1; 0]%R = [0%R] ++ [INR 2].
+Proof. unfold raug, mv, vdot. cbn. repeat f_equal; lra. Qed.
 
 Print Assumptions C05_add_mean_one_shape.
 Print Assumptions C05_mean_row_is_sum.
